@@ -1,5 +1,5 @@
 SPECIFICATION Spec
 CONSTANTS
   N = 3
-INVARIANTS Lossless PrintOK Unmarked
+INVARIANTS Lossless CollisionIsReal PrintOK Unmarked
 CHECK_DEADLOCK FALSE
